@@ -213,9 +213,10 @@ func (c04) Exec(h []Ev) []Ev {
 					panic("harness: no adaptation field")
 				}
 				which := GS(e["which"])
-				step := func(err error) {
-					if err != nil {
-						panic("setter failed: " + err.Error())
+				e["setter_err"] = ""
+				step := func(err error) { // (every call here fits: a refusal is the library's answer, reported to the specification)
+					if err != nil && GS(e["setter_err"]) == "" {
+						e["setter_err"] = err.Error()
 					}
 				}
 				fill := GB(e["fill"])
